@@ -8,6 +8,7 @@ package main
 import (
 	"context"
 	"fmt"
+	"runtime"
 	"sort"
 	"sync"
 
@@ -175,6 +176,50 @@ func caseLC(c *vlib.Cases, eps []ep, ops []lcOp) {
 	c.Emit(map[string]any{"kind": "lc", "eps": eps, "ops": ops, "impl": map[string]any{"obs": out}})
 }
 
+// ---- least connections under concurrent readers: goroutines keep calling Select while the main goroutine opens a
+// connection on one endpoint, asks (the answer must be an endpoint with fewer connections in flight — the
+// main goroutine's own Increment has returned, so the truth is known), and closes it again.
+func caseLCConc(c *vlib.Cases, n, readers, rounds int) {
+	sel, _ := newSel(balancer.DefaultBalancerLeastConnections)
+	var eps []ep
+	for i := 0; i < n; i++ {
+		eps = append(eps, ep{ID: i, Prio: 1, Status: "healthy"})
+	}
+	l, ids := mk(eps)
+	stop := make(chan struct{})
+	var wg sync.WaitGroup
+	for g := 0; g < readers; g++ {
+		wg.Add(1)
+		go func() {
+			defer wg.Done()
+			for {
+				select {
+				case <-stop:
+					return
+				default:
+					sel.Select(context.Background(), l)
+				}
+			}
+		}()
+	}
+	wrong, first := 0, -1
+	for rd := 0; rd < rounds; rd++ {
+		busy := l[rd%n]
+		sel.IncrementConnections(busy)
+		e, err := sel.Select(context.Background(), l)
+		if id := idOf(ids, e, err); id < 0 || e == busy {
+			wrong++
+			if first < 0 {
+				first = rd
+			}
+		}
+		sel.DecrementConnections(busy)
+	}
+	close(stop)
+	wg.Wait()
+	c.Emit(map[string]any{"kind": "lcconc", "n": n, "readers": readers, "rounds": rounds, "impl": map[string]any{"wrong": wrong, "first": first}})
+}
+
 func genEps(r *vlib.Rng, n, maxPrio, maxConns int, uniqueIDs bool) []ep {
 	eps := make([]ep, n)
 	for i := range eps {
@@ -321,6 +366,15 @@ func main() {
 		}
 		c.Count("lc.exhaustive")
 	})
+	lcRounds := 20000
+	if thorough {
+		lcRounds = 120000
+	}
+	for _, n := range []int{2, 3} {
+		caseLCConc(c, n, 4, lcRounds)
+		caseLCConc(c, n, 2*runtime.GOMAXPROCS(0), lcRounds/2)
+		c.Count("lcconc")
+	}
 	c.Close(map[string]any{"exhaustive": true,
 		"exhaustive_note": "all status vectors for lists of n<=3 (priority: n<=2 quick / n<=3 thorough with priorities 0..1; round-robin and least-connections n=3, connection vectors 0..2); larger lists sampled"})
 }
